@@ -17,6 +17,17 @@ CHECKS = {
     ),
 }
 
+CHECKS["C17"] = dict(
+    engine="netsim-stream",
+    category="exploration",
+    text="Seeded search over stream segmentations (cuts independent of frame boundaries, short reads, delays in virtual time) and single network faults (bit flip per header field / payload, "
+    "truncation + close at a seeded offset, foreign magic) for streams of 1-3 frames; recv_msg's call-by-call results must refine the reference frame parser run on the same faulty bytes, "
+    "terminate after EOF within a bounded number of recv calls, and library-built payloads must parse back to the fields they were built from.",
+    design_ref="DESIGN.md §4.2, §5 C17",
+    note="Trusted: /verif/ref/frames.py (pinned to fixed points). Socket, network, peer, clock are stubs; recv_msg, msg_ser, payload builders and parsers are real. No timeout on the socket (mid-frame timeouts are outside the quantifier).",
+    technique="deterministic simulation: seeded fragmentation schedules + injected stream faults (bit flip, truncation/EOF, foreign magic) against a reference parser; bounded-liveness check on EOF",
+)
+
 NA = {
     "C02": "ecmath.verify / sig_verify / point / ensure_sig_low_s read no RNG, clock, stream, file or shared state: acceptance is a pure function of (pubkey, message, signature bytes); mutated tuples are input generation, not a fault schedule.",
     "C04": "tx_deser is a pure function of the buffer; 'whatever bytes follow' is a second input, not a fault on a seam the code reads from.",
